@@ -1,0 +1,95 @@
+//go:build verif
+
+package auth
+
+// Contracts for the deductive verifier under /verif (govc). This file contains
+// only comments: it adds no code with or without the build tag.
+
+//@ immutable CRAuthenticator keyStore, timeout
+//@ immutable CryptoSignAuthenticator keyStore, timeout
+
+//@ spec func alreadyAuthed(ks BypassKeyStore, authid string, details wamp.Dict) bool
+
+//@ iface (KeyStore) AuthKey
+//@   pure
+//@ iface (KeyStore) AuthRole
+//@   pure
+//@ iface (KeyStore) PasswordInfo
+//@   pure
+//@ iface (KeyStore) Provider
+//@   pure
+//@ iface (BypassKeyStore) AlreadyAuth
+//@   pure
+//@   ensures [def] result == alreadyAuthed(recv, arg0, arg1)
+//@ iface (BypassKeyStore) OnWelcome
+//@   modifies all map[string]any
+
+//@ func (cr *CRAuthenticator) AuthMethod
+//@   pure
+//@   ensures result == "wampcra"
+//@ func (t *TicketAuthenticator) AuthMethod
+//@   pure
+//@   ensures result == "ticket"
+//@ func (cr *CryptoSignAuthenticator) AuthMethod
+//@   pure
+//@   ensures result == "cryptosign"
+
+//@ func (cr *CRAuthenticator) makeChallengeStr
+//@   requires cr != nil && !isnil(cr.keyStore)
+//@   pure
+
+//@ func nonce
+//@   pure
+
+//@ func (cr *CRAuthenticator) Authenticate
+//@   props C09
+//@   requires cr != nil && !isnil(cr.keyStore) && !isnil(client)
+//@   sendsite challenge : [only-a-challenge-to-this-client] is(m, *wamp.Challenge) && ch == method(client, "Send")
+//@   sendsite challenge : [challenge-issued-in-this-handshake] "challenge" in m.(*wamp.Challenge).Extra && m.(*wamp.Challenge).Extra["challenge"] == box(chStr)
+//@   callsite makeChallengeStr : [challenge-bound-to-session] arg1 == sid && arg2 == authid
+//@   callsite VerifySignature : [response-checked-against-issued-challenge] arg1 == chStr && arg2 == key && arg0 == authRsp.Signature
+//@   returnsite : [welcome-only-if-authenticated] isnil(result1) ==> result0 != nil && result0.Details != nil && ((!isnil(ks) && alreadyAuthed(ks, authid, details)) || sigValid(authRsp.Signature, chStr, key))
+//@   returnsite : [error-means-no-welcome] !isnil(result1) ==> result0 == nil
+
+//@ func (t *TicketAuthenticator) Authenticate
+//@   props C09
+//@   requires t != nil && !isnil(t.keyStore) && !isnil(client)
+//@   sendsite challenge : [only-a-challenge-to-this-client] is(m, *wamp.Challenge) && ch == method(client, "Send")
+//@   returnsite : [welcome-only-if-ticket-matches] isnil(result1) ==> result0 != nil && result0.Details != nil && ((!isnil(ks) && alreadyAuthed(ks, authID, details)) || (ticket != nil && authRsp.Signature == stringOf(ticket)))
+//@   returnsite : [error-means-no-welcome] !isnil(result1) ==> result0 == nil
+
+//@ func (cr *CryptoSignAuthenticator) computeChallenge
+//@   requires cr != nil && (channelBinding == nil || len(channelBinding) >= 32)
+//@   modifies all []byte
+
+//@ func (cr *CryptoSignAuthenticator) verifySignature
+//@   props C09
+//@   requires cr != nil
+//@   modifies nothing
+//@   callsite Equal : [opened-message-compared-with-challenge] arg0 == message && arg1 == challenge
+//@   returnsite : [true-only-for-a-valid-signature-over-the-challenge] result0 ==> verify && len(message) == len(challenge) && (forall i mathint :: 0 <= i && i < len(challenge) ==> message[i] == challenge[i])
+
+//@ spec func cryptoValid(sig string, challenge []byte, key []byte) bool
+
+//@ func (cr *CryptoSignAuthenticator) Authenticate
+//@   props C09
+//@   requires cr != nil && !isnil(cr.keyStore) && !isnil(client)
+//@   sendsite challenge : [only-a-challenge-to-this-client] is(m, *wamp.Challenge) && ch == method(client, "Send")
+//@   callsite verifySignature : [response-checked-against-issued-challenge] arg1 == authRsp.Signature && arg2 == challenge && arg3 == key
+//@   callsite EncodeToString : [challenge-sent-is-the-one-verified] arg0 == challenge
+//@   returnsite : [welcome-only-if-authenticated] isnil(result1) ==> result0 != nil && result0.Details != nil && ((!isnil(ks) && alreadyAuthed(ks, authid, details)) || verify)
+//@   returnsite : [error-means-no-welcome] !isnil(result1) ==> result0 == nil
+
+//@ func (a *AnonymousAuth) Authenticate
+//@   props C09
+//@   requires a != nil
+//@   returnsite : [welcome-with-configured-role] isnil(result1) && result0 != nil && result0.Details != nil && "authrole" in result0.Details && result0.Details["authrole"] == box(a.AuthRole)
+
+// What the router relies on from any Authenticator (the three in this package
+// establish it; see their returnsite clauses).
+//@ iface (Authenticator) Authenticate
+//@   modifies all map[string]any
+//@   ensures [welcome-or-error] isnil(result1) ==> result0 != nil && result0.Details != nil
+
+//@ iface (Authenticator) AuthMethod
+//@   pure
